@@ -533,6 +533,54 @@ static void runOp(const std::vector<std::string> &w)
 			out += dup ? " dup=1" : " dup=0";
 			out += " raws=";
 			for (CK_ULONG i = 0; i < n && i <= mx; i++) { char b[32]; snprintf(b, sizeof b, "%s%lu", i ? "," : "", (unsigned long)hs[i]); out += b; }
+			out += " pairs=";
+			for (CK_ULONG i = 0; i < n && i <= mx; i++) { char b[48]; snprintf(b, sizeof b, "%sh%zu:%lu", i ? "," : "", hidx[hs[i]], (unsigned long)hs[i]); out += b; }
+		}
+	}
+	else if (op == "findseq") {
+		// findseq <hS> <max1> <max2> ...  -> consecutive C_FindObjects calls; names of handles first seen
+		// anywhere in this search are bound in label order over the UNION of the batches (the split of
+		// freshly registered handles over batches depends on heap addresses, the union does not)
+		CK_SESSION_HANDLE s = handleArg(w[1]);
+		std::vector<CK_OBJECT_HANDLE> all;
+		std::string ns;
+		bool asc = true, dup = false, over = false;
+		rv = CKR_OK;
+		for (size_t b = 2; b < w.size(); b++) {
+			CK_ULONG mx = num(w[b]), n = 77;
+			std::vector<CK_OBJECT_HANDLE> hs(mx + 1, 0);
+			rv = F->C_FindObjects(s, &hs[0], mx, &n);
+			if (rv != CKR_OK) break;
+			if (n > mx) { over = true; n = mx; }
+			char nb[32]; snprintf(nb, sizeof nb, "%s%lu", ns.empty() ? "" : ",", (unsigned long)n); ns += nb;
+			for (CK_ULONG i = 0; i < n; i++) all.push_back(hs[i]);
+		}
+		rvOut(rv);
+		if (rv == CKR_OK) {
+			for (size_t i = 1; i < all.size(); i++) if (all[i] <= all[i - 1]) asc = false;
+			std::set<CK_ULONG> seen;
+			for (size_t i = 0; i < all.size(); i++) { if (seen.count(all[i])) dup = true; seen.insert(all[i]); }
+			std::vector<std::pair<std::string, CK_ULONG> > unk;
+			for (size_t i = 0; i < all.size(); i++) if (!hidx.count(all[i])) unk.push_back(std::make_pair(labelOf(s, all[i]), all[i]));
+			std::sort(unk.begin(), unk.end());
+			unk.erase(std::unique(unk.begin(), unk.end()), unk.end());
+			for (size_t i = 0; i < unk.size(); i++) bindHandle(unk[i].second);
+			std::vector<size_t> idx;
+			for (size_t i = 0; i < all.size(); i++) idx.push_back(hidx[all[i]]);
+			std::sort(idx.begin(), idx.end());
+			out += " ns=" + ns;
+			kv("n", all.size());
+			out += " objs=";
+			for (size_t i = 0; i < idx.size(); i++) { char b[32]; snprintf(b, sizeof b, "%sh%zu", i ? "," : "", idx[i]); out += b; }
+			out += " newlabels=";
+			for (size_t i = 0; i < unk.size(); i++) { if (i) out += ","; out += hex((const unsigned char *)unk[i].first.data(), unk[i].first.size()); }
+			out += asc ? " asc=1" : " asc=0";
+			out += dup ? " dup=1" : " dup=0";
+			out += over ? " over=1" : " over=0";
+			out += " raws=";
+			for (size_t i = 0; i < all.size(); i++) { char b[32]; snprintf(b, sizeof b, "%s%lu", i ? "," : "", (unsigned long)all[i]); out += b; }
+			out += " pairs=";
+			for (size_t i = 0; i < all.size(); i++) { char b[48]; snprintf(b, sizeof b, "%sh%zu:%lu", i ? "," : "", hidx[all[i]], (unsigned long)all[i]); out += b; }
 		}
 	}
 	else if (op == "findfinal") { rv = F->C_FindObjectsFinal(handleArg(w[1])); rvOut(rv); }
